@@ -132,6 +132,8 @@ def judge (req ans : List String) : Option Complaints :=
       | .ok _, [p, back] => do
           let p ← unhex p; let back ← parseOAns back
           pure (judgeFromInt T I v a p back)
+      -- an `Err` of the `TryFrom` impl is the inherent method's `None` plus the facts its text states (C17)
+      | .err f, _ => pure (judgeFromInt T I v .none [] .none ++ judgeConvErr T (digits10 v.natAbs) 0 f)
       | _, _ => pure (judgeFromInt T I v a [] .none)
   | ["to_float", t, b, f], [a] => do
       let T ← Ty.ofName t; let b ← unhex b; let B ← BinFmt.ofName f; let a ← parseFAns a
@@ -143,6 +145,7 @@ def judge (req ans : List String) : Option Complaints :=
       | .ok _, [p, back] => do
           let p ← unhex p; let back ← parseFAns back
           pure (judgeFromFloat T B bits ryu a p back)
+      | .err f, _ => pure (judgeFromFloat T B bits ryu .none [] .none ++ judgeConvErrFloat T ryu f)
       | _, _ => pure (judgeFromFloat T B bits ryu a [] .none)
   | ["bytes", _, _], ["panic"] => some [("C05", "panic")]
   | ["bytes", _, b], ["api", le, be, fb] => do
@@ -189,14 +192,23 @@ def answerLine (line : String) : String :=
   if (req.head?.getD "").startsWith "x_" then answerHookLine req ans else
   -- `op@fromstr`, `op@tryfrom`, `op@t`: the same operation through the crate's conversion-trait impls (`FromStr`,
   -- `TryFrom<&str>`, `From`/`TryFrom` between decimals and primitives); one operation in the model and for the oracle
+  let toksOp := req.head?
   let req := match req with
     | op :: rest => ((op.splitOn "@").head?.getD op) :: rest
     | [] => []
+  -- `zero()` is `from(0u8)`: the same request for the model and the oracle
+  let req := match req with
+    | ["zero", t] => ["from_int", t, "u8", "0"]
+    | r => r
   let verdict := match judge req ans with
     | some cs => showComplaints cs
     | none => "BAD"
   let io : Decstr.Model.Io := ⟨unhex, hex, showPAns, showOAns, showFAns, parseFrags, parseInt, hexNat⟩
-  let (m, mv) := match Decstr.Model.answerWith io req with
+  -- the model distinguishes the `TryFrom<int|float>` impls (their refusal is an error with facts, not `None`)
+  let mreq := match toksOp with
+    | some op => if op == "from_int@t" || op == "from_float@t" then op :: req.drop 1 else req
+    | none => req
+  let (m, mv) := match Decstr.Model.answerWith io mreq with
     | some ma => (" ".intercalate ma, match judge req ma with | some cs => showComplaints cs | none => "BAD")
     | none => ("-", "-")
   s!"{verdict} ## {m} ## {mv}"
